@@ -359,7 +359,14 @@ fn c15_check(ctx: &Ctx) -> i32 {
 
 fn c16_check(ctx: &Ctx) -> i32 {
     let budget = Duration::from_secs(ctx.tier.pick(30, 300));
-    let agg = shard_runs(ctx, "main", ctx.tier.pick(20_000, 1_500_000), budget, Duration::from_secs(30), Arc::new(wb::c16_run));
+    let mut agg = shard_runs(ctx, "main", ctx.tier.pick(20_000, 1_500_000), budget, Duration::from_secs(30), Arc::new(wb::c16_run));
+    if ctx.replay.is_none() {
+        // multi-thread leg: clones of one sender used from several OS threads at once
+        for i in 0..ctx.tier.pick(3u64, 30) {
+            let out = wb::c16_parallel(crate::evidence::mix(ctx.seed, i, 3), 4, ctx.tier.pick(20_000, 100_000));
+            agg.absorb("parallel", i, ctx.seed, out, 0);
+        }
+    }
     let rep = Report {
         level: "exploration",
         rule: "one case = one seeded run: 1-60 broadcast sends in bursts; 1-4 subscribers joining at random indices with send buffer and receive buffer in {1,2,4}, consumption rate and burst size per subscriber, local or transferred to the other endpoint, some never reading; optionally a subscriber that drains between all sends. Non-trivial iff >=1 subscriber was lagged. Distinct by hash(subscriber parameters, interleaving signature).".into(),
